@@ -2,6 +2,7 @@ package props
 
 import (
 	"fmt"
+	"regexp"
 	"strings"
 	"testing"
 
@@ -145,6 +146,14 @@ func checkC03TmplR(c c03Tmpl, reached *bool) *evid.Fail {
 	}); g != nil {
 		g.Msg = fmt.Sprintf("template %q with %s: %s", c.Text, sortedMap(c.Map), g.Msg)
 		return g
+	}
+	// "unclosed template sections ... surface as errors": the reference tag grammar (C10's) decides what is unclosed
+	if *reached && strings.Trim(c.Text, " \t\r\n") != "" {
+		if items, bad, dc := mLex(c.Text); bad == "" && !dc {
+			if _, e, dc2 := mParse(items); (e == "unclosed section" || e == "mismatched section") && !dc2 {
+				return evid.F("unclosed-section-accepted", "template %q has a section that is never closed (%s), yet SetTemplate returned no error", c.Text, e)
+			}
+		}
 	}
 	return nil
 }
@@ -394,6 +403,8 @@ func TestC03_RapidExpressions(t *testing.T) {
 	requireLabels(t, rec, "reached-evaluation:true", "reached-evaluation:false")
 }
 
+var c03CloserRe = regexp.MustCompile(`\{\{\{?\s*/[^{}]*\}\}\}?`)
+
 func TestC03_RapidTemplates(t *testing.T) {
 	rec := evid.New("C03", "TestC03_RapidTemplates", "C03.template", c03Rule+"; rapid: generated well-formed templates followed by 0-3 character-level mutations")
 	defer finish(t, rec)
@@ -402,7 +413,15 @@ func TestC03_RapidTemplates(t *testing.T) {
 		tree := genNodes(rt, rapid.IntRange(0, 4).Draw(rt, "depth"), &budget)
 		var sb strings.Builder
 		mPrint(tree, &sb)
-		text := mutateText(rt, sb.String(), c03HostileTmpl)
+		text := sb.String()
+		if rapid.IntRange(0, 2).Draw(rt, "dropcloser") == 0 {
+			// tag-level damage: one whole section closer removed (an inner section left open inside a closed outer one)
+			if locs := c03CloserRe.FindAllStringIndex(text, -1); len(locs) > 0 {
+				l := locs[rapid.IntRange(0, len(locs)-1).Draw(rt, "closer")]
+				text = text[:l[0]] + text[l[1]:]
+			}
+		}
+		text = mutateText(rt, text, c03HostileTmpl)
 		c := c03Tmpl{text, genMap(rt)}
 		reached := false
 		f := checkC03TmplR(c, &reached)
